@@ -79,7 +79,7 @@ def main():
     os.makedirs(dst, exist_ok=True)
     shutil.copy(os.path.join(src, 'patch.diff'), dst)
     m2 = dict(meta)
-    m2['base_commit'] = sh(['git', '-C', '/repo', 'rev-parse', '--short', 'HEAD']).stdout.strip()
+    m2.setdefault('base_commit', sh(['git', '-C', '/repo', 'rev-parse', '--short', 'HEAD']).stdout.strip())
     m2['result'] = {'suite': out['suite'], 'suite_passes': out['suite_passes'], 'checks': {k: v['rc'] for k, v in res.items()}, 'silent': out['silent'],
                     'first_alarm': next(({'check': k, 'claim': v['first_claim'], 'case': v['first_case']} for k, v in res.items() if v['rc'] != 0), None)}
     json.dump(m2, open(os.path.join(dst, 'meta.json'), 'w'), indent=1)
